@@ -482,10 +482,7 @@ func checkPathRule(c *Ctx, r *Report, clause, ver, setFn string) {
 			viol = fmt.Sprintf("expected one SetOperation call, found %d", n)
 		}
 	} else {
-		sw := w.switches(fi, func(tag ast.Expr) bool {
-			se, ok := tag.(*ast.SelectorExpr)
-			return ok && qualField(info, se) == "definitions.RouteMetadata.HttpVerb"
-		})
+		sw := w.switches(fi, w.exprIsJustField(fi, "definitions.RouteMetadata.HttpVerb"))
 		if len(sw) != 1 {
 			viol = fmt.Sprintf("expected one switch on route.HttpVerb in %s, found %d", setFn, len(sw))
 		} else {
@@ -612,10 +609,7 @@ func checkVerbTables(c *Ctx, r *Report, clause string) {
 	// 3.1 switch labels
 	var labels31 []string
 	if fi := need(c, r, clause, "generator/swagen/swagen31.setNewRouteOperation"); fi != nil {
-		for _, sw := range w.switches(fi, func(tag ast.Expr) bool {
-			se, ok := tag.(*ast.SelectorExpr)
-			return ok && qualField(fi.Pkg.TypesInfo, se) == "definitions.RouteMetadata.HttpVerb"
-		}) {
+		for _, sw := range w.switches(fi, w.exprIsJustField(fi, "definitions.RouteMetadata.HttpVerb")) {
 			labels31 = append(labels31, sw.Labels...)
 			sites = append(sites, w.pos(sw.Pos))
 		}
